@@ -209,6 +209,18 @@ func nodeProcessors(p *core.Program, procKeys ...string) map[*ssa.Function]bool 
 					all = false
 				}
 			}
+			// the processing may sit in an unexported helper that returns nothing (the tail of
+			// two clone-and-process functions shared): look at the expanded body as well
+			if !all {
+				if ifn := p.Inlined(fn); ifn != nil && ifn != fn && len(core.Returns(ifn)) > 0 {
+					all = true
+					for _, ret := range core.Returns(ifn) {
+						if !isProcessed(ifn, ret, ret.Results[0]) {
+							all = false
+						}
+					}
+				}
+			}
 			if all && len(core.Returns(fn)) > 0 {
 				res[fn] = true
 				changed = true
